@@ -453,8 +453,9 @@ Definition px_concat (idc : option string) (an bn : string) (left right : table)
    Props/PEXEC.v use as their well-formedness premise; harness/props/PEXEC.py evaluates it on every builder-accepted case.
      every node    : declared columns distinct and not empty (ViewRepresentation.__init__)
      extend        : output names distinct (a dict), at least one; windowed: outputs are not partition / order columns, a window
-                     term is fn() / fn(column, literals) / fn(literal, literals), its column exists and is no OTHER term's output,
-                     partition and order columns exist; any_value (mapped to "first", not modelled by Sem.win_fn) excluded
+                     term is fn() / fn(column, literals), its column exists and is no OTHER term's output, partition and order
+                     columns exist and are pairwise distinct; excluded: any_value (mapped to "first", not modelled by Sem.win_fn)
+                     and terms whose first argument is a literal (transcribed and tied, outside the refinement proof)
      project       : group columns exist; an aggregate reads an existing column or a constant; the only zero-argument aggregate is _size()
      map_columns   : the renaming does not merge two columns
      natural_join  : keys exist, as many left as right; a left key that is also a column of the right table is paired with itself
@@ -470,7 +471,7 @@ Definition agg_ok_b (cs : list string) (e : expr) : bool :=
 Definition win_ok_b (cs keys : list string) (ke : string * expr) : bool :=
   match win_shape (snd ke) with
   | Some (fn, Some (WCol c), _) => mem c cs && (negb (mem c keys) || String.eqb c (fst ke)) && negb (String.eqb fn "any_value")
-  | Some (fn, Some (WConst _), _) => negb (String.eqb fn "any_value")
+  | Some (fn, Some (WConst _), _) => false       (* a literal first argument (stand-in column): transcribed and tied, not covered by the refinement proof *)
   | Some (fn, None, _) => true
   | None => false
   end.
@@ -485,6 +486,7 @@ Fixpoint wf_op_b (p : op) : bool :=
       wf_op_b s && nodup_names (map fst ops) && negb (Nat.eqb (List.length ops) 0) &&
       (if wd || Nat.ltb 0 (List.length (w_part w)) || Nat.ltb 0 (List.length (w_order w))
        then disjointb (map fst ops) (w_part w ++ w_order w) && subset (w_part w ++ w_order w) (column_names s)
+            && nodup_names (w_part w ++ w_order w)
             && forallb (win_ok_b (column_names s) (map fst ops)) ops
        else true)
   | OProject s ops gb => wf_op_b s && subset gb (column_names s) && forallb (fun ke => agg_ok_b (column_names s) (snd ke)) ops
